@@ -8,7 +8,8 @@
   that does not advance or exhausts its fuel).  Kinds: util.Buffer, VLAN, ARP, ICMP, TCP, UDP, IGMPv1or2, IGMPv3Query,
   IGMPv3GroupRecord, IGMPv3MembershipReport, IPv6 Option, HopByHopHeader, RoutingHeader, FragmentHeader, IPv4, IPv6,
   Ethernet, DHCPParseOptions, DHCP.Write, and the LLDP TLV `Write`s.  No hypothesis on the receiver is needed, except for
-  LLDP.Write / TLV.Write, which dereference the receiver's TLV pointers (stated explicitly, shown necessary by examples).
+  LLDP.Write / TLV.Write, which dereference the receiver's chassis, port and TTL TLVs (stated explicitly, shown necessary by
+  examples).
 
   Composite decoders are proved from the theorems of their parts:
       HopByHop ← Option (loop `goLoop`, via `goLoop_total`);  IGMPv3MembershipReport ← IGMPv3GroupRecord;
@@ -704,10 +705,13 @@ theorem C08_TTLTLV_total (ty ln secs : V) (b : Bytes) :
     · exact ⟨_, rfl⟩
   · exact ⟨_, rfl⟩
 
-/-- LLDP.Write: total for every byte string, provided the receiver is an LLDP struct whose Chassis and Port TLV pointers are
-    allocated (as in every LLDP value the library builds; a nil receiver or nil TLV pointer is a nil dereference) -/
-theorem C08_LLDP_total (c1 c2 c3 c4 p1 p2 p3 p4 ttl : V) (b : Bytes) :
-    Res.Total (PLLDP.write (.obj "p.LLDP" [.obj "p.ChassisTLV" [c1, c2, c3, c4], .obj "p.PortTLV" [p1, p2, p3, p4], ttl]) b) := by
+/-- LLDP.Write: total for every byte string, provided the receiver is an LLDP struct whose Chassis, Port and TTL TLVs are
+    struct values of their types (as in every LLDP value the library builds — in Go the three fields are embedded struct
+    values, so this always holds; in the untyped model a nil receiver or a nil TLV is a nil dereference).  Write decodes
+    the chassis TLV, the port TLV behind it and the TTL TLV behind that; it stops after a TLV that consumed nothing. -/
+theorem C08_LLDP_total (c1 c2 c3 c4 p1 p2 p3 p4 t1 t2 t3 : V) (b : Bytes) :
+    Res.Total (PLLDP.write (.obj "p.LLDP" [.obj "p.ChassisTLV" [c1, c2, c3, c4], .obj "p.PortTLV" [p1, p2, p3, p4],
+      .obj "p.TTLTLV" [t1, t2, t3]]) b) := by
   unfold PLLDP.write
   simp only
   obtain ⟨m, e1, a1, a2, a3, a4, hch⟩ := C08_TLV_total "p.ChassisTLV" c1 c2 c3 c4 b
@@ -722,8 +726,8 @@ theorem C08_LLDP_total (c1 c2 c3 c4 p1 p2 p3 p4 ttl : V) (b : Bytes) :
     · split
       · exact Or.inr rfl
       · exact Or.inl ⟨_, rfl⟩
-    · obtain ⟨p, e3, r1, r2, r3, r4, hch2⟩ := C08_TLV_total "p.ChassisTLV" a1 a2 a3 a4 (b.drop (m + o))
-      simp only [hch2, Res.bind_ok]
+    · obtain ⟨⟨p, e3, r⟩, httl⟩ := C08_TTLTLV_total t1 t2 t3 (b.drop (m + o))
+      simp only [httl, Res.bind_ok]
       split
       · exact Or.inr rfl
       · exact Or.inl ⟨_, rfl⟩
@@ -739,12 +743,21 @@ example : PHopByHop.unmarshal PHopByHop.zero (Slice.exact [59, 0, 1, 4, 0, 0, 0,
 /-- `HEL = 255` (size 2048, formerly 0) is rejected, also inside an IPv6 packet naming hop-by-hop as next header -/
 example : PHopByHop.unmarshal PHopByHop.zero (Slice.exact [0, 255]) = .err := by rfl
 example : PIPv6.unmarshal PIPv6.zero (Slice.exact (zeros 40 ++ [0, 255])) = .err := by rfl
-/-- the receiver hypothesis of `C08_LLDP_total` cannot be dropped: a nil receiver / a nil Chassis TLV panics -/
+/-- the receiver hypothesis of `C08_LLDP_total` cannot be dropped: a nil receiver / a nil Chassis TLV panics, and — now that
+    Write decodes the TTL TLV too — so does a nil TTL TLV once the chassis and port TLVs have been decoded (model only:
+    in Go the three TLVs are struct-valued fields and cannot be nil) -/
 example : PLLDP.write .nil [] = .panic := rfl
 example : PLLDP.write (.obj "p.LLDP" [.nil, .nil, .nil]) [] = .panic := rfl
-/-- … and it holds of the zero LLDP value of the kind table -/
+example : PLLDP.write (.obj "p.LLDP" [.obj "p.ChassisTLV" [.num 0, .num 0, .num 0, .bytes []],
+    .obj "p.PortTLV" [.num 0, .num 0, .num 0, .bytes []], .nil]) [2, 2, 4, 9, 4, 4, 2, 5, 8, 6, 6, 2, 0, 120] = .panic := by rfl
+/-- … and it holds of the zero LLDP value of the kind table; a whole frame (chassis, port, TTL = 120 s) is decoded -/
 example : Res.Total (PLLDP.write (.obj "p.LLDP" [.obj "p.ChassisTLV" [.num 0, .num 0, .num 0, .bytes []],
     .obj "p.PortTLV" [.num 0, .num 0, .num 0, .bytes []], .obj "p.TTLTLV" [.num 0, .num 0, .num 0]]) [2, 7, 4, 1, 2, 3, 4, 5, 6]) :=
-  C08_LLDP_total _ _ _ _ _ _ _ _ _ _
+  C08_LLDP_total _ _ _ _ _ _ _ _ _ _ _ _
+example : PLLDP.write (.obj "p.LLDP" [.obj "p.ChassisTLV" [.num 0, .num 0, .num 0, .bytes []],
+    .obj "p.PortTLV" [.num 0, .num 0, .num 0, .bytes []], .obj "p.TTLTLV" [.num 0, .num 0, .num 0]])
+      [2, 2, 4, 9, 4, 4, 2, 5, 8, 6, 6, 2, 0, 120] =
+    .ok (.obj "p.LLDP" [.obj "p.ChassisTLV" [.num 1, .num 2, .num 4, .bytes [9, 4]],
+      .obj "p.PortTLV" [.num 2, .num 2, .num 5, .bytes [8, 6]], .obj "p.TTLTLV" [.num 3, .num 2, .num 120]], 14) := by rfl
 
 end OFV.Props.C08
